@@ -911,7 +911,8 @@ def conelp(c, G, h, dims = None, A = None, b = None, primalstart = None,
            pinfres =  hresx / resx0 / (-hz - by)
         else:
            pinfres =  None
-        if cx < 0.0:
+        if cx < 0.0 and hresz == hresz:
+           # (hresz is NaN after a numerical breakdown; max() would drop it)
            dinfres = max(hresy / resy0, hresz/resz0) / (-cx)
         else:
            dinfres = None
